@@ -1,8 +1,34 @@
 import vlib
 
+# coq text of a failing case -> True iff Spec.classify_case says it is exactly the scratch-bit defect class
+_SCRATCH_CLASS = {}
+
+def _install_classifier():
+    """After the main evaluation, evaluate Spec.classify_case (inside Coq) on the cases the oracle rejected.
+    A case is the known scratch-bit finding only if the tree was probed unfixed, the UNFIXED model equals the
+    implementation's rules, the rule has >= 3 positive blocks, and every failing packet is a reference non-match
+    on which the implementation took the action, failing a 3rd-or-later positive block, with the FIXED model
+    giving the reference outcome (see Spec.v).  Local helper: wraps vlib.coq_eval_cases for this run only."""
+    orig = vlib.coq_eval_cases
+    def wrapped(ctx, imports, checker, cases, **kw):
+        res, log = orig(ctx, imports, checker, cases, **kw)
+        if checker == CFG["checker"]:
+            bad = [i for (i, a, o) in res if not o]
+            if bad:
+                sub = [cases[i] for i in bad]
+                r2, _ = orig(ctx, imports, "classify_case", sub, **kw)
+                for (j, is_class, _o) in r2:
+                    _SCRATCH_CLASS[sub[j]] = is_class
+        return res, log
+    vlib.coq_eval_cases = wrapped
+    return orig
+
 def classify(case_line):
-    # nftables renders NotICMP type+code as "type != t code != c" (conjunction of inequalities)
     tags = case_line.get("tags", [])
+    if (_SCRATCH_CLASS.get(case_line.get("coq")) and "variant:scratch-bit-unfixed" in tags
+            and any(t in tags for t in ("posblocks:3", "posblocks:4"))):
+        return "scratch-bit-third-positive-block"
+    # nftables renders NotICMP type+code as "type != t code != c" (conjunction of inequalities)
     if "flavor:nft" in tags and "not-icmp-type-code" in tags:
         return "nft-not-icmp-type-code"
     return None
@@ -28,12 +54,19 @@ CFG = dict(
                  "entry condition: the rule's own verdict mark bit is clear on entry (endpoint chains clear accept/pass; a set bit means the chain already returned)",
                  "mark bits accept/pass/drop/scratch0/scratch1 pairwise disjoint, non-zero, within 32 bits",
                  "rate-limit matches (LogActionRateLimit) are an arbitrary oracle",
-                 "nftables NotICMP with type AND code is outside the proved domain (known finding nft-not-icmp-type-code)"],
+                 "nftables NotICMP with type AND code is outside the proved domain (known finding nft-not-icmp-type-code)",
+                 "the model variant (c_fixed) is the one the driver probes from the tree: unfixed trees are compared with the unfixed model "
+                 "(c08_rule_exact_refuted_unfixed applies; oracle failures of exactly that class are the known finding "
+                 "scratch-bit-third-positive-block), trees with fixes/C08-scratch-bit.patch with the fixed model (c08_rule_exact applies)"],
     classify=classify,
 )
 
 def run(ctx):
-    return vlib.standard_flow(ctx, CFG)
+    orig = _install_classifier()
+    try:
+        return vlib.standard_flow(ctx, CFG)
+    finally:
+        vlib.coq_eval_cases = orig
 
 def replay(ctx, path):
     """Re-evaluate one stored case (rule, configuration, the real renderer's parsed rules, packets) with the
